@@ -930,6 +930,54 @@ class Scan:
                     damages.append((q, slot))
         return handouts, mutations, damages
 
+    # ---- round 3: what every public member of the netlist classes writes
+    def public_members(self):
+        return [m for m in self.members if not m.startswith('_')]
+
+    def member_writes(self, start):
+        """(non-memo instance state written, members reached) by public member `start`, following `self.<member>` chains:
+        `self.x = ...`, `del self.x`, `self.x[...] = ...`, `self.x.<mutating method>(...)` where `x` is not a memo slot
+        (filling / dropping a memo slot is what the memo layer is for)"""
+        seen, writes = [], []
+        memo_ok = set(self.memo.keys()) | {'__dict__'}
+
+        def add(w):
+            if w not in writes:
+                writes.append(w)
+
+        def visit(name):
+            if name in seen:
+                return
+            seen.append(name)
+            ent = self.members.get(name)
+            if name in self.memo:
+                ent = self.members.get(self.memo[name][3])
+            if ent is None:
+                return
+            f = ent[2]
+            for n in ast.walk(f):
+                if isinstance(n, ast.Attribute) and isinstance(n.value, ast.Name) and n.value.id == 'self':
+                    a = n.attr
+                    if isinstance(n.ctx, (ast.Store, ast.Del)):
+                        if a not in memo_ok:
+                            add(a)
+                    elif a in self.members or a in self.memo:
+                        visit(a)
+                if isinstance(n, ast.Call) and isinstance(n.func, ast.Attribute) and n.func.attr in self.MUTATING:
+                    v = n.func.value
+                    while isinstance(v, ast.Subscript):
+                        v = v.value
+                    if isinstance(v, ast.Attribute) and isinstance(v.value, ast.Name) and v.value.id == 'self' and v.attr not in memo_ok:
+                        add(v.attr + '.' + n.func.attr)
+                if isinstance(n, (ast.Assign, ast.AugAssign, ast.Delete)):
+                    for t in (n.targets if isinstance(n, (ast.Assign, ast.Delete)) else [n.target]):
+                        if isinstance(t, ast.Subscript):
+                            v = t.value
+                            if isinstance(v, ast.Attribute) and isinstance(v.value, ast.Name) and v.value.id == 'self' and v.attr not in memo_ok:
+                                add(v.attr + '[]')
+        visit(start)
+        return writes, seen
+
     # ---- round 3: hidden process-wide state and aliasing in the whole package
     def hidden_state_scan(self):
         """(mutableDefaults, argAliasMutations) over every module of the package
@@ -1141,7 +1189,31 @@ class Scan:
         return out
 
 
-def generate(repo):
+def harness_query_names():
+    """the query / transformation names harness/c16.py asks, read from its source text (literal lists), mapped to model names"""
+    path = os.path.join(os.path.dirname(os.path.dirname(os.path.abspath(__file__))), 'c16.py')
+    try:
+        tree = ast.parse(open(path).read())
+    except Exception:
+        return list(QUERIES)
+    vals = {}
+    for n in tree.body:
+        if isinstance(n, ast.Assign) and len(n.targets) == 1 and isinstance(n.targets[0], ast.Name):
+            nm = n.targets[0].id
+            if nm in ('LIST_QUERIES', 'BOOL_QUERIES', 'GRAPH_QUERIES', 'SOLVE_QUERIES', 'HEAVY_QUERIES', 'DERIVES', 'EXTRA_DERIVES', 'MODEL_QUERY'):
+                try:
+                    vals[nm] = ast.literal_eval(n.value)
+                except Exception:
+                    pass
+    names = []
+    for k in ('LIST_QUERIES', 'BOOL_QUERIES', 'SOLVE_QUERIES', 'HEAVY_QUERIES', 'DERIVES', 'EXTRA_DERIVES'):
+        names += list(vals.get(k, []))
+    names += [g[0] for g in vals.get('GRAPH_QUERIES', [])]
+    mq = vals.get('MODEL_QUERY', {})
+    return sorted(set(mq.get(q, q) for q in names + ['battery']))
+
+
+def generate(repo, harness_queries=None):
     sc = Scan(repo)
     cleared = sc.cleared()
     muts = sc.mutators()
@@ -1156,6 +1228,19 @@ def generate(repo):
         reads.append((q, sc.closure(q)))
     for q in missing:
         sc.unparsed.append('query-not-found:' + q)
+    # every public member of the netlist classes gets a row too (`publicReads`, in the order of `publicMembers`): a member
+    # without a row is not silently pure
+    public = sc.public_members()
+    public_reads = [(q, sc.closure(q)) for q in public]
+    writes = []
+    ground_adders = []
+    for q in public:
+        w, seen = sc.member_writes(q)
+        writes.append((q, w))
+        if '_add_ground' in seen:
+            ground_adders.append(q)
+    public_mutators = [m for m in public if m in ('add', 'remove', 'netfile_add')]
+    hq = list(harness_queries) if harness_queries is not None else harness_query_names()
     bat = []
     rd = dict(reads)
     for q in BATTERY:
@@ -1163,6 +1248,12 @@ def generate(repo):
             if d not in bat:
                 bat.append(d)
     reads.append(('battery', bat))
+    rd = dict(reads)
+    prd = dict(public_reads)
+    harness_reads = [(q, rd.get(q, prd.get(q))) for q in hq if q in rd or q in prd]
+    info_missing_rows = [q for q in hq if q not in rd and q not in prd]
+    for q in info_missing_rows:
+        sc.unparsed.append('harness-query-without-row:' + q)
     spawns = [s for s in sc.memo_order if sc.reaches(s, '_new')]
     spawn_members = [q for q in QUERIES if q in sc.members and q not in sc.memo and sc.reaches(q, '_new')]
     init_inv = False
@@ -1196,7 +1287,9 @@ def generate(repo):
             'sharedHandouts': handouts, 'sharedMutations': mutations, 'damages': damages,
             'settings': [(a, b) for (a, b, c) in settings if c], 'reserved': len(reserved),
             'deleteCleansKinds': del_cleans, 'contextsShareSymbols': ctx_share,
-            'mutableDefaults': mut_defaults, 'argAliasMutations': arg_alias}
+            'mutableDefaults': mut_defaults, 'argAliasMutations': arg_alias,
+            'publicMembers': len(public), 'groundAdders': ground_adders,
+            'membersWritingState': [(q, w) for (q, w) in writes if w and q not in public_mutators and q not in ground_adders]}
 
     kindmap = {'lru': '.lru', 'cprop': '.cprop', 'hasattr': '.hasattr'}
     L = []
@@ -1225,10 +1318,25 @@ def generate(repo):
     L.append('/-- direct memo dependencies of each memoised member -/')
     L.append('def deps : List (String × List String) := ' + llist(['(%s, %s)' % (lstr(s), llist([lstr(d) for d in ds])) for (s, ds) in deps]))
     L.append('')
-    L.append('/-- memo slots touched (dependencies first) by each public query / operation -/')
-    L.append('def reads : List (String × List String) := [')
-    L.append(',\n'.join('  (%s, %s)' % (lstr(q), llist([lstr(d) for d in ds])) for (q, ds) in reads))
+    def rows(tab):
+        return ',\n'.join('  (%s, %s)' % (lstr(q), llist([lstr(d) for d in ds])) for (q, ds) in tab)
+    L.append('/-- memo slots touched (dependencies first) by the queries the harness asks, in the order of `harnessQueries` -/')
+    L.append('def harnessReads : List (String × List String) := [')
+    L.append(rows(harness_reads))
     L.append(']')
+    L.append('')
+    L.append('/-- ... by the other queries / operations known to the translator -/')
+    L.append('def queryReads : List (String × List String) := [')
+    L.append(rows(reads))
+    L.append(']')
+    L.append('')
+    L.append('/-- ... and by EVERY public member of the netlist classes, in the order of `publicMembers` -/')
+    L.append('def publicReads : List (String × List String) := [')
+    L.append(rows(public_reads))
+    L.append(']')
+    L.append('')
+    L.append('/-- memo slots touched (dependencies first) by each public query / operation -/')
+    L.append('def reads : List (String × List String) := harnessReads ++ queryReads ++ publicReads')
     L.append('')
     L.append('/-- memoised members / operations that create a new Netlist while running -/')
     L.append('def spawns : List String := ' + llist([lstr(s) for s in spawns + spawn_members]))
@@ -1265,6 +1373,23 @@ def generate(repo):
     L.append('')
     L.append('/-- `add` restores the symbol context (`state.restore_context()`) also when `_add` raises -/')
     L.append('def addRestoresContextOnError : Bool := %s' % ('true' if restores_on_err else 'false'))
+    L.append('')
+    L.append('/-- the public members (methods and properties) of the netlist classes -/')
+    L.append('def publicMembers : List String := ' + llist([lstr(x) for x in public]))
+    L.append('')
+    L.append('/-- the queries the harness asks (model names) -/')
+    L.append('def harnessQueries : List String := ' + llist([lstr(x) for x in hq]))
+    L.append('')
+    L.append('/-- per public member: the instance state OTHER than memo slots it writes (directly or through the members it calls) -/')
+    L.append('def memberWrites : List (String × List String) := [')
+    L.append(',\n'.join('  (%s, %s)' % (lstr(q), llist([lstr(x) for x in w])) for (q, w) in writes))
+    L.append(']')
+    L.append('')
+    L.append('/-- public members that reach `_add_ground` (a circuit WITHOUT node 0 gets a wire `W <node> 0` added, with a warning) -/')
+    L.append('def groundAdders : List String := ' + llist([lstr(x) for x in ground_adders]))
+    L.append('')
+    L.append('/-- public members whose purpose is to change the netlist -/')
+    L.append('def publicMutators : List String := ' + llist([lstr(x) for x in public_mutators]))
     L.append('')
     L.append('/-- functions of the package with a mutable default argument (one object shared by every call of the process) -/')
     L.append('def mutableDefaults : List String := ' + llist([lstr(x) for x in mut_defaults]))
